@@ -13,7 +13,7 @@ PARTIAL = [
     "entry points: list = map of single, grid size / ordering / corners (curve, surface, volume) and the zeroth derivative of curves are Lean theorems about the model functions (curveGrid, surfaceGrid, volumeGrid, curveDers); the zeroth derivative of surfaces follows coordinatewise from C02 (k = l = 0); the object layer's dispatch to these functions is tied by correspondence + exact oracle only",
     "evaluation with find_span_binsearch SELECTED is now an end-to-end theorem (C17 curve_eval_binsearch_selected, rational_curve_eval_binsearch_selected, surface_eval_binsearch_selected, volume_eval_binsearch_selected, curve_derivatives_binsearch_selected; binsearch_span_found): on the closed domain of a knot vector with non-empty last span the point computed on the span the binary search returns is the Cox-de Boor (tensor) sum (cdbSpan of that span; cdb below the domain end), under BinTolOk = tolerance in (0, 1/2) and the F-17b separation hypothesis per direction (holds for every parameter when the last span is longer than the tolerance); without it the evaluated point differs (curve_eval_binsearch_refuted_F17b) - supersedes the last clause of the first item; rational surfaces / volumes with the binary search: only through binsearch_selected_any_span_function (span equality), no separate quotient statement",
 ]
-PARTIAL.append("knot vectors with an empty last domain span are outside the model (theorems assume KnotsOk); the repaired step-back of the span searches (F-01b) is checked by the exact oracle only (stream empty-last-span: model line + oracle strictly inside the domain, kind end-left-limit without a model line at u = U_n - points, first derivatives, evaluate_list, sampled grid against the Cox-de Boor left limit; span_found_nonempty_of_knotsOk / span_found_empty_without_knotsOk in Props/C01.lean; the evaluation / derivative / grid ops of the driver answer ERR when the span the model finds is empty instead of printing x/0 = 0)")
+PARTIAL.append("knot vectors with an empty last domain span (F-01b, repaired): evaluate_single is now covered by theorems about the evaluation through the literal model of the REPAIRED search (curvePointR / surfacePointR / volumePointR = span found by findSpanLinearR, Model/SpanR.lean): curve_eval_repaired_closed, rational_curve_eval_repaired_closed, surface_ / volume_eval_repaired_closed, rational_surface_ / rational_volume_eval_repaired_closed (every sorted knot vector with U_p < U_n per direction, whole closed domain: the span found is legal, non-empty, contains the parameter; point = Cox-de Boor (tensor) sum with the recursion of that span, cdb itself below the domain end, the LAST NON-EMPTY span at U_n; rational quotient with positive weight), eval_repaired_eq_eval (= curvePoint / surfacePoint / volumePoint under KnotsOk), witness curve_eval_repaired_witness_F01b; correspondence at u = U_n too (stream empty-last-span: kind end-left-limit now has a model line cevalr / sevalr / vevalr besides the oracle; ordinary shapes: kind singler). NOT lifted to the repaired search: evaluate_list / sampled grids / derivatives (curveGrid, surfaceGrid, volumeGrid, curveDers use findSpanLinear; their ops and ceval / seval / veval answer ERR when the span found is empty) - at U_n of such a knot vector evaluate_list, first derivatives and the grid are checked by the exact oracle only (left-limit values); span_found_nonempty_of_knotsOk / span_found_empty_without_knotsOk remain as the statements about the search without step back")
 ASSUMPTIONS = ["parameters at the domain end are evaluated on the last non-empty span (left limit), as the library does"]
 
 
@@ -27,16 +27,23 @@ def _shape(rng, tier):
 
 
 OPS = {'curve': 'ceval', 'surface': 'seval', 'volume': 'veval'}
+# evaluation through the REPAIRED model search (findSpanLinearR: step back to the last non-empty span at the domain end;
+# Model/SpanR.lean curvePointR / surfacePointR / volumePointR) - no empty-span guard in the driver
+OPSR = {'curve': 'cevalr', 'surface': 'sevalr', 'volume': 'vevalr'}
 GRID = {'curve': 'cgrid', 'surface': 'sgrid', 'volume': 'vgrid'}
 
 
 def gen(rng, tier):
     out = []
     n = 150 if tier == 'quick' else 2500
-    for _ in range(n):
+    for _i in range(n):
         d = _shape(rng, tier)
         ps = S.rand_params(rng, d)
         line = "%s %s %s" % (OPS[d['kind']], S.args(d), " ".join(fr(x) for x in ps))
+        if _i % 3 == 0:
+            # the R evaluation of the model on ORDINARY shapes: it must agree with the code everywhere
+            out.append(Case('singler', "%s %s %s" % (OPSR[d['kind']], S.args(d), " ".join(fr(x) for x in ps)), dict(shape=d, params=ps),
+                            tags=('ordinary-r',)))
         kinds = ['single', 'list', 'ders0'] if d['kind'] != 'volume' else ['single', 'list']
         k = rng.choice(kinds)
         data = dict(shape=d, params=ps)
@@ -114,9 +121,11 @@ def gen(rng, tier):
     # empty-last-span (F-01b, repaired): knot vectors whose last domain span [U_{n-1}, U_n] is EMPTY - unclamped with a
     # knot of multiplicity 2..p sitting exactly on the domain end, or the end knot repeated p+2 times (both accepted by
     # knotvector.check) - in the (one) direction of a curve / in one direction of a surface / volume.  Strictly inside
-    # the domain: correspondence (model line) + oracle.  AT U_n: the model does not have the step back of the repaired
-    # span searches (its theorems assume KnotsOk) - no model line, the exact oracle alone demands the Cox-de Boor
-    # LEFT-LIMIT value (= the polynomial of the last non-empty span at U_n), points, first derivatives and the grid.
+    # the domain: correspondence (model line, unrepaired and repaired model search) + oracle.  AT U_n: model line with the
+    # R evaluation (curvePointR / surfacePointR / volumePointR = span found by findSpanLinearR, the transcription of the
+    # repaired find_span_linear; the ops of the unrepaired model search answer ERR there) compared with evaluate_single,
+    # + the exact oracle, which demands the Cox-de Boor LEFT-LIMIT value (= the polynomial of the last non-empty span at
+    # U_n) of points, first derivatives, evaluate_list and the grid.
     for _ in range(36 if tier == 'quick' else 400):
         d, k = _empty_last_shape(rng)
         ds = S.dirs(d)
@@ -132,11 +141,14 @@ def gen(rng, tier):
         if kd == 'list':
             data['plist'] = [ps]; data['j'] = 0
         out.append(Case(kd, "%s %s %s" % (OPS[d['kind']], S.args(d), " ".join(fr(x) for x in ps)), data, tags=('empty-last-span', 'inside')))
-        # (2) at the domain end of the special direction (other directions anywhere, ends included): oracle only
+        out.append(Case('singler', "%s %s %s" % (OPSR[d['kind']], S.args(d), " ".join(fr(x) for x in ps)), dict(shape=d, params=ps),
+                        tags=('empty-last-span', 'inside')))
+        # (2) at the domain end of the special direction (other directions anywhere, ends included): R model line + oracle
         pe = S.rand_params(rng, d)
         pe[k] = kv[n_]
         sizes = [rng.randint(2, 5) for _ in ds]
-        out.append(Case('end-left-limit', None, dict(shape=d, params=pe, dir=k, sizes=sizes), tags=('empty-last-span', 'at-end')))
+        out.append(Case('end-left-limit', "%s %s %s" % (OPSR[d['kind']], S.args(d), " ".join(fr(x) for x in pe)),
+                        dict(shape=d, params=pe, dir=k, sizes=sizes), tags=('empty-last-span', 'at-end')))
     # floating point: the requested sample size is honoured for every n (rounding of 1/delta)
     out.append(Case('float-sizes', None, dict(lo=2, hi=130 if tier == 'quick' else 400)))
     return out
@@ -262,6 +274,9 @@ def impl(c):
     o = S.build(d)
     if c.kind in ('single', 'ders0'):
         return show_list(_eval(o, d, c.data['params'], c.kind))
+    if c.kind in ('singler', 'end-left-limit'):
+        # evaluate_single, compared with the model's evaluation through the REPAIRED span search
+        return show_list(_eval(o, d, c.data['params'], 'single'))
     if c.kind == 'list':
         pl = [[q(x) for x in ps] for ps in c.data['plist']]
         arg = [p[0] for p in pl] if d['kind'] == 'curve' else [tuple(p) for p in pl]
@@ -277,7 +292,7 @@ def oracle(c):
         return _oracle_end_left_limit(c)
     d = c.data.get('shape')
     o = S.build(d) if d else None
-    if c.kind in ('single', 'list', 'ders0'):
+    if c.kind in ('single', 'list', 'ders0', 'singler'):
         ps = c.data['params']
         want = S.eval_ref(d, ps)
         got = _eval(o, d, ps, 'single')
